@@ -117,7 +117,7 @@ def replay_call(ob, call):
             if d.get('exception') and d['exception'] in _declared_raises(path, ob.func):
                 d['ok'] = True
             elif d.get('exception') in ('AttributeError', 'TypeError') and \
-                    re.search(r"'(Fake\w*|Mem\w*|_[A-Z]\w*)' object", d.get('msg', '')):
+                    re.search(r"'(Fake\w*|Mem\w*|_[A-Z]\w*)'", d.get('msg', '')):
                 # the real code used a part of an interface that a contract stub of the harness does not model
                 # (e.g. iterating an in-memory file): a limitation of the harness, never a verdict about pharmpy
                 d['ok'] = None
